@@ -131,7 +131,15 @@ fn run_job_inner(seeds: &[Seed], j: &Job) -> Res {
             problems.push(("dump-output-misaligned".into(), format!("{other:?}").chars().take(300).collect()));
             return Res { problems, nontrivial: false, skipped: false };
         }
-        _ => return Res { problems, nontrivial: false, skipped: true },
+        _ => {
+            // seeds in which one listed trait cannot be generated: the error belongs to that trait alone, the dumps and
+            // impls of the others are still there (the baseline of these seeds is per-trait on a tree that is right)
+            if s.origin == "gen:failing-sibling" {
+                problems.push(("dump-lost-next-to-a-failing-trait".into(), format!("the expansion of #[derive_ex({})] is not one item per listed trait: a trait that cannot be generated takes the dumps / impls of the others with it", j.attr)));
+                return Res { problems, nontrivial: false, skipped: false };
+            }
+            return Res { problems, nontrivial: false, skipped: true };
+        }
     };
     let mut nontrivial = false;
     for (k, (b, d)) in bs.iter().zip(ds.iter()).enumerate() {
